@@ -301,13 +301,14 @@ end SaVerif.Pratt
 
 namespace SaVerif.Pratt
 
-/-- every exposed operator symbol (not inside a bracket) satisfies `P` -/
+/-- every exposed *binary infix* node (not inside a bracket) has a symbol satisfying `P`
+    (prefix operators and complete ternary forms cannot swallow a following middle symbol) -/
 def allExp (P : Sym → Bool) : G → Bool
   | G.atom _ => true
   | G.br _ _ => true
-  | G.pre s _ c => P s && allExp P c
+  | G.pre _ _ c => allExp P c
   | G.inf s _ l r => P s && allExp P l && allExp P r
-  | G.tern s _ _ _ a b c => P s && allExp P a && allExp P b && allExp P c
+  | G.tern _ _ _ _ a b c => allExp P a && allExp P b && allExp P c
 
 /-- `f` is not the middle symbol of the ternary form of `s` -/
 def notMidOf (g : Grammar) (f : Option Sym) (s : Sym) : Bool :=
@@ -321,7 +322,7 @@ theorem noMid_of_allExp (g : Grammar) (f : Option Sym) :
   induction t with
   | atom a => intro _; rfl
   | br b c _ => intro _; rfl
-  | pre s t c ih => intro h; simp only [allExp, Bool.and_eq_true] at h; simpa [noMid] using ih h.2
+  | pre s t c ih => intro h; simp only [allExp] at h; simpa [noMid] using ih h
   | inf s t l r _ ihr =>
     intro h
     simp only [allExp, Bool.and_eq_true] at h
@@ -379,12 +380,12 @@ theorem allExp_norm (P : Sym → Bool) : ∀ t : G, allExp P t = true → allExp
   | br b c _ => intro _; simp [G.norm, allExp]
   | pre s t c ih =>
     intro h
-    simp only [allExp, Bool.and_eq_true] at h
-    simp [G.norm, allExp, h.1, ih h.2]
+    simp only [allExp] at h
+    simp [G.norm, allExp, ih h]
   | tern s t m mt a b c iha ihb ihc =>
     intro h
     simp only [allExp, Bool.and_eq_true] at h
-    simp [G.norm, allExp, h.1.1.1, iha h.1.1.2, ihb h.1.2, ihc h.2]
+    simp [G.norm, allExp, iha h.1.1, ihb h.1.2, ihc h.2]
   | inf s t l r ihl ihr =>
     intro h
     simp only [allExp, Bool.and_eq_true] at h
@@ -422,6 +423,18 @@ theorem rootIs_norm (s : Sym) (t : G) : rootIs s t.norm = rootIs s t := by
       · intro x; simp [rootIs]
     · simp [G.norm, ha, rootIs]
 
+/-- the left operand of a separator may itself be a separator chain (`a, b, c`;
+    `c THEN r WHEN c2 THEN r2 ELSE e`): only its last operand faces the next separator -/
+def sepLeft (g : Grammar) (s : Sym) (lbp : Nat) : G → Bool
+  | G.inf s2 _ _ r2 =>
+    s.isSep && s2.isSep && !G.assocSym s2 &&
+    (match g.infixBp s2 with
+     | some (_, rbp2) =>
+       decide (lbp < rbp2) && (g.ternBp s2).isNone && tight g (lbp + 1) r2 &&
+         allExp (notMidOf g (some s)) r2
+     | none => false)
+  | _ => false
+
 /-- compositional sufficient condition for `wb g t.norm`: every node checks that its operands
     bind tightly enough for *its own* binding powers; the operands of a chain of one
     associative operator may themselves be chains of that operator (nested either way) -/
@@ -445,7 +458,8 @@ def ok (g : Grammar) : G → Bool
         (match g.ternBp s with
          | some (_, _, true) => false
          | _ => true) &&
-        tight g (lbp + 1) l && allExp (notMidOf g (some s)) l && tight g rbp r)
+        ((tight g (lbp + 1) l && allExp (notMidOf g (some s)) l) || sepLeft g s lbp l) &&
+        tight g rbp r)
   | G.tern s _ m _ a b c =>
     match g.infixBp s, g.ternBp s with
     | some (lbp, rbp), some (mid, bp3, _) =>
@@ -630,13 +644,37 @@ theorem wb_norm_of_ok_aux (g : Grammar) : ∀ t : G, ok g t = true →
         · obtain ⟨y, hy, rfl⟩ := hx
           exact gtl y hy
       · have ha' : G.assocSym s = false := by simpa using ha
-        simp only [ha', Bool.false_eq_true, if_false, Bool.and_eq_true] at hcond
-        obtain ⟨⟨⟨hmand, htl⟩, hnl⟩, htr⟩ := hcond
+        simp only [ha', Bool.false_eq_true, if_false, Bool.and_eq_true, Bool.or_eq_true] at hcond
+        obtain ⟨⟨hmand, hleft⟩, htr⟩ := hcond
         refine ⟨?_, ?_⟩
         · simp only [G.norm, ha', Bool.false_eq_true, if_false, wb, hb, Bool.and_eq_true]
           refine ⟨⟨⟨⟨hmand, wl⟩, wr⟩, ?_⟩, ?_⟩
-          · apply rightOK_of_tight g (some s) (k := lbp + 1) (by simp [stops, hb]) _ (tight_norm g _ l htl)
-            exact noMid_of_allExp g _ _ (allExp_norm _ l hnl)
+          · rcases hleft with ⟨htl, hnl⟩ | hsep
+            · apply rightOK_of_tight g (some s) (k := lbp + 1) (by simp [stops, hb]) _ (tight_norm g _ l htl)
+              exact noMid_of_allExp g _ _ (allExp_norm _ l hnl)
+            · cases l with
+              | inf s2 t2 l2 r2 =>
+                simp only [sepLeft, Bool.and_eq_true, Bool.not_eq_true'] at hsep
+                obtain ⟨⟨⟨_, _⟩, hna2⟩, hrest⟩ := hsep
+                cases hb2 : g.infixBp s2 with
+                | none => simp [hb2] at hrest
+                | some p2 =>
+                  obtain ⟨lbp2, rbp2⟩ := p2
+                  simp only [hb2, Bool.and_eq_true, decide_eq_true_eq] at hrest
+                  obtain ⟨⟨⟨hlt2, hq2⟩, ht2⟩, hn2⟩ := hrest
+                  have hq2' : g.ternBp s2 = none := by
+                    cases hh : g.ternBp s2 with
+                    | none => rfl
+                    | some q => simp [hh] at hq2
+                  simp only [G.norm, hna2, Bool.false_eq_true, if_false, rightOK, hb2, hq2',
+                    Bool.and_eq_true, Bool.and_true]
+                  refine ⟨by simp [stops, hb, hlt2], ?_⟩
+                  apply rightOK_of_tight g (some s) (k := lbp + 1) (by simp [stops, hb]) _ (tight_norm g _ r2 ht2)
+                  exact noMid_of_allExp g _ _ (allExp_norm _ r2 hn2)
+              | atom a => simp [sepLeft] at hsep
+              | pre s2 t2 c => simp [sepLeft] at hsep
+              | br k c => simp [sepLeft] at hsep
+              | tern s2 t2 m mt a b c => simp [sepLeft] at hsep
           · exact leftOK_of_tight g (Nat.le_refl _) _ (tight_norm g _ r htr)
         · intro s' lbp' rbp' hroot hassoc
           have hs : s = s' := by simpa [rootIs] using hroot
